@@ -77,6 +77,11 @@ impl Render {
                     "loop" => self.text.push_str(&format!("{pad}loop {{\n")),
                     "times" => self.text.push_str(&format!("{pad}times(2) {{\n")),
                     "if" => self.text.push_str(&format!("{pad}if ({REG} == 0) {{\n")),
+                    // conditions that are compile-time constants: the labels inside still count (they are positional)
+                    "if0" => self.text.push_str(&format!("{pad}if (0) {{\n")),
+                    "if1" => self.text.push_str(&format!("{pad}if (2 - 1) {{\n")),
+                    "unless1" => self.text.push_str(&format!("{pad}unless (1) {{\n")),
+                    "while0" => self.text.push_str(&format!("{pad}while (0) {{\n")),
                     "else" => self.text.push_str(&format!("{pad}else {{\n")),
                     "while" => self.text.push_str(&format!("{pad}while ({REG} != 0) {{\n")),
                     "dowhile" => self.text.push_str(&format!("{pad}do {{\n")),
@@ -85,10 +90,10 @@ impl Render {
                 self.stmts(body, indent + 1);
                 match kind {
                     "dowhile" => self.text.push_str(&format!("{pad}}} while ({REG} != 0);\n")),
-                    "if" => self.text.push_str(&format!("{pad}}}")),     // an `else` may follow
+                    "if" | "if0" | "if1" | "unless1" => self.text.push_str(&format!("{pad}}}")),     // an `else` may follow
                     _ => self.text.push_str(&format!("{pad}}}\n")),
                 }
-                if kind == "if" { self.text.push('\n'); }
+                if matches!(kind, "if" | "if0" | "if1" | "unless1") { self.text.push('\n'); }
             },
             h => panic!("bad stmt head {h}"),
         }
@@ -350,8 +355,12 @@ fn rt_case(stmts: &[Sexp]) -> Sexp {
     let Some(new) = &re.value else {
         return fail(sig("decompiled-script-does-not-recompile"), format!("{} | text: {}", diag_class(&re.diagnostics), dec.text.replace('\n', " ")));
     };
-    let t0: Vec<(u16, i32)> = orig.iter().map(|i| (i.opcode, i.time)).collect();
-    let t1: Vec<(u16, i32)> = new.iter().map(|i| (i.opcode, i.time)).collect();
+    // The subject is the TIME of every instruction.  Which jump opcode the compiler picks for a condition is not
+    // (a condition between two literals is folded on recompile and gets another opcode: that is C01's finding
+    // `roundtrip-bytes-differ constant-condition-jump`), so every non-marker opcode is compared as "some instruction".
+    let key = |i: &RawInstr| (if i.opcode == MARKER { i.opcode } else { 0 }, i.time);
+    let t0: Vec<(u16, i32)> = orig.iter().map(key).collect();
+    let t1: Vec<(u16, i32)> = new.iter().map(key).collect();
     if t0 != t1 {
         return fail(sig("decompiled-labels-do-not-reproduce-times"), format!("compiled {t0:?} recompiled {t1:?} | text: {}", dec.text.replace('\n', " ")));
     }
@@ -397,7 +406,7 @@ impl SrcGen<'_> {
                 9..=14 => Sexp::app("ins", vec![]),
                 15 => Sexp::app("lab", vec![]),
                 _ if depth > 0 && self.n_stmts < 40 => {
-                    let mut kinds = vec!["free", "loop", "if", "while", "dowhile"];
+                    let mut kinds = vec!["free", "loop", "if", "while", "dowhile", "if0", "if1", "unless1", "while0"];
                     if self.times_depth < 2 { kinds.push("times"); }
                     if last_if { kinds.push("else"); kinds.push("else"); }
                     let kind = *self.rng.pick(&kinds);
@@ -405,7 +414,7 @@ impl SrcGen<'_> {
                     let n = self.rng.below(5);
                     let body = self.stmts(depth - 1, n);
                     if kind == "times" { self.times_depth -= 1; }
-                    this_if = kind == "if";
+                    this_if = matches!(kind, "if" | "if0" | "if1" | "unless1");
                     let mut v = vec![Sexp::atom(kind)]; v.extend(body);
                     Sexp::app("blk", v)
                 },
